@@ -307,3 +307,10 @@ def probe_spec(draw, n, kinds=("c", "v", "f")):
         elif k == "o":
             out.append(["o", draw(st.integers(0, 1)), draw(st.sampled_from([0.05, 0.3, 1.0, 2.5, 40.0]))])
     return out
+
+
+def shuffled_mapping(mapping, seed):
+    """the same vdim_mapping with its keys inserted in another order (a dict may list the labels in any order)"""
+    items = list(mapping.items())
+    np.random.default_rng(int(seed) % (2**32)).shuffle(items)
+    return dict(items)
